@@ -8,6 +8,7 @@ import (
 	"encoding/binary"
 	"encoding/json"
 	"fmt"
+	"github.com/theparanoids/ysshra/csr"
 	"github.com/theparanoids/ysshra/internal/zzverif/uagent"
 	"reflect"
 	"sort"
@@ -269,7 +270,7 @@ func c02Run(c *ev.Ctx, k c02Case) {
 
 func checkC02(c *ev.Ctx) {
 	defer cleanupScratch()
-	c.Rule("real gensign.Run + regular.Handler, honest agent, recording CA; the signing request received by the CA is compared with a reference record built from server-side inputs: strings {plain, JSON metacharacters, <>&, non-ASCII, 200 chars, empty, literal JSON/HTML escape texts (\\u0026, \\\\u003c, &lt;, \\n), U+2028/2029, control characters} for login/user/host/IP/transaction id varied one field at a time and jointly; 10 login names that interact with the key-file lookup ('.pub' suffixes, dots, case) x directory layouts {<name>.pub, bare <name>, both} x CA algorithm{0,1,2,3,4,99}; 5 login names for which only near-miss key files of other users exist (other case, prefix, suffix); handler configurations: validity{1,3600,43200,315360000,2^32+43200} x every non-colliding subset (size<=3; thorough <=4) of key_identifiers keys {rsa,RSA,Ecdsa,ed25519,default,unknown,1,3,99} x algorithm; two consecutive requests per case; client-declared signature algorithm 0..17 x touch-to-SSH x requested algorithm {omitted,1,3,4} x 3 slot configurations; every sequence of 1..4 requests over 5 algorithms (3 configured, 2 not) on one long-lived handler; sequences in which the agent refuses the insertion of one request's new private key (a certified key pair was never offered to an earlier requester's agent: add-identity requests are read off the wire). non-trivial = request signed and compared; distinct by case")
+	c.Rule("real gensign.Run + regular.Handler, honest agent, recording CA; the signing request received by the CA is compared with a reference record built from server-side inputs: strings {plain, JSON metacharacters, <>&, non-ASCII, 200 chars, empty, literal JSON/HTML escape texts (\\u0026, \\\\u003c, &lt;, \\n), U+2028/2029, control characters} for login/user/host/IP/transaction id varied one field at a time and jointly; 10 login names that interact with the key-file lookup ('.pub' suffixes, dots, case) x directory layouts {<name>.pub, bare <name>, both} x CA algorithm{0,1,2,3,4,99}; 5 login names for which only near-miss key files of other users exist (other case, prefix, suffix); handler configurations: validity{1,3600,43200,315360000,2^32+43200} x every non-colliding subset (size<=3; thorough <=4) of key_identifiers keys {rsa,RSA,Ecdsa,ed25519,default,unknown,1,3,99} x algorithm; two consecutive requests per case; client-declared signature algorithm 0..17 x touch-to-SSH x requested algorithm {omitted,1,3,4} x 3 slot configurations; every sequence of 1..4 requests over 5 algorithms (3 configured, 2 not) on one long-lived handler; sequences in which the agent refuses the insertion of one request's new private key (a certified key pair was never offered to an earlier requester's agent: add-identity requests are read off the wire); a batch of three requests authenticated and generated on one handler before anything is signed (what Generate returned for an earlier request still describes that request). non-trivial = request signed and compared; distinct by case")
 	c.Assume("key_identifiers names are normalised case-insensitively or numerically (reference table in the harness)")
 	if c.ReplayCase != nil {
 		var k c02Case
@@ -438,5 +439,61 @@ func checkC02(c *ev.Ctx) {
 		c02Run(c, k) // a fresh handler right after the sequences above
 		n++
 	}
-	c.Set("cases", n+1)
+	c02Batch(c)
+	c.Set("cases", n+2)
+}
+
+// c02Batch: a front end that authenticates and generates for several requests on ONE handler before it has anything
+// signed (generate the batch, then sign the batch): what Generate returned for an earlier request still describes THAT
+// request after later calls - results are values of their own.
+func c02Batch(c *ev.Ctx) {
+	c.Eval()
+	e := newEnv(envOpt{KeyDir: "pub", LogName: "alice", Validity: 43200, KeyIDs: map[string]string{"default": "slot"}, Behaviour: "honest", AgentHasKey: true})
+	defer e.close()
+	if e.hErr != nil {
+		c.Violation("C02:harness:handler", e.hErr.Error(), nil)
+		return
+	}
+	type held struct {
+		p    *csr.ReqParam
+		keys []csr.AgentKey
+	}
+	var hs []held
+	k := map[string]any{"batch": true}
+	for i := 0; i < 3; i++ {
+		p := defaultParams("alice")
+		p.TransID, p.ReqUser, p.ReqHost, p.ClientIP = fmt.Sprintf("%010x", 0xb0+i), fmt.Sprintf("user%d", i), fmt.Sprintf("host%d.example", i), fmt.Sprintf("10.0.0.%d", i+1)
+		p.Attrs.Username, p.Attrs.Hostname = p.ReqUser, p.ReqHost
+		var keys []csr.AgentKey
+		var err error
+		if pn := ev.Guard(func() {
+			if err = e.handler.Authenticate(p); err == nil {
+				keys, err = e.handler.Generate(p)
+			}
+		}); pn != "" {
+			c.Violation("C02:panic-escaped:"+ev.PanicSite(pn), pn, k)
+			return
+		}
+		if err != nil || len(keys) == 0 {
+			c.Violation("C02:configured-request-fails:batch", fmt.Sprintf("request %d of a batch on one handler failed: %v", i, err), k)
+			return
+		}
+		hs = append(hs, held{p, keys})
+	}
+	seen := map[string]int{}
+	for i, h := range hs {
+		for _, ak := range h.keys {
+			for _, req := range ak.CSRs() {
+				c.Nontrivial(fmt.Sprint("batch", i))
+				if !reflect.DeepEqual(req.Principals, []string{"alice"}) || !strings.Contains(req.KeyId, h.p.TransID) || !strings.Contains(req.KeyId, h.p.ReqUser) || !strings.Contains(req.KeyId, h.p.ReqHost) {
+					c.Violation("C02:batch:earlier-result-describes-a-later-request", fmt.Sprintf("after %d further Generate calls on the same handler, the signing request returned for request %d (transaction %s, user %s) reads principals=%q keyid=%s", len(hs)-1-i, i, h.p.TransID, h.p.ReqUser, req.Principals, req.KeyId), k)
+				}
+				if j, dup := seen[req.PublicKey]; dup {
+					c.Violation("C02:key-reused", fmt.Sprintf("the signing requests held for requests %d and %d of a batch certify the same key pair", j, i), k)
+				}
+				seen[req.PublicKey] = i
+			}
+		}
+	}
+	c.Outcome("batch/3")
 }
